@@ -351,7 +351,7 @@ impl IndexManager {
     }
 
     /// Read entry data block from the index file
-    fn read_entry_block(reader: &mut BufReader<File>) -> Result<Vec<u8>> {
+    fn read_entry_block(reader: &mut BufReader<File>, file_size: u64) -> Result<Vec<u8>> {
         // Skip header hash/padding (8 bytes)
         let mut hash_bytes = [0u8; 8];
         reader
@@ -367,6 +367,19 @@ impl IndexManager {
             "Entry block: size={}, hash=0x{:08x}",
             entry_block.block_size, entry_block.block_hash
         );
+
+        // The block size comes from the file, so check it against the bytes
+        // the file actually has left before allocating a buffer for it.
+        let position = reader
+            .stream_position()
+            .map_err(|e| StorageError::Index(format!("Failed to read entry data: {e}")))?;
+        let remaining = file_size.saturating_sub(position);
+        if u64::from(entry_block.block_size) > remaining {
+            return Err(StorageError::Index(format!(
+                "Failed to read entry data: entry block size {} exceeds remaining file length {remaining}",
+                entry_block.block_size
+            )));
+        }
 
         // Read entry data (limited to block_size for safety)
         let entry_data_size = entry_block.block_size as usize;
@@ -448,7 +461,7 @@ impl IndexManager {
         let (header, entry_size) = Self::read_index_header(&mut reader)?;
 
         // Read entry data block
-        let entry_data = Self::read_entry_block(&mut reader)?;
+        let entry_data = Self::read_entry_block(&mut reader, file_size)?;
 
         // Parse entries from raw data
         let mut entries = Self::parse_entries(&entry_data, &header, entry_size);
